@@ -16,8 +16,49 @@ import (
 	"strings"
 	"sync/atomic"
 
+	"github.com/safing/jess"
+	"github.com/safing/jess/filesig"
+	"github.com/safing/jess/lhash"
+	_ "github.com/safing/jess/tools/all"
 	"github.com/safing/portbase/updater"
 )
+
+// signResource makes a signing key, signs (hash of body, {id, version}) the way the release tooling does and
+// returns the signature file and the public signet (JSON) for the writer's trust store.
+func signResource(body []byte, id, version string) (sigFile, signetJSON []byte, err error) {
+	sg, err := jess.GenerateSignet("Ed25519", 0)
+	if err != nil {
+		return nil, nil, err
+	}
+	sg.ID = "verif-c17-key"
+	if err := sg.StoreKey(); err != nil {
+		return nil, nil, err
+	}
+	ts := jess.NewMemTrustStore()
+	if err := ts.StoreSignet(sg); err != nil {
+		return nil, nil, err
+	}
+	rcpt, err := sg.AsRecipient()
+	if err != nil {
+		return nil, nil, err
+	}
+	if err := rcpt.StoreKey(); err != nil {
+		return nil, nil, err
+	}
+	env := jess.NewUnconfiguredEnvelope()
+	env.SuiteID = jess.SuiteSignV1
+	env.Senders = []*jess.Signet{sg}
+	letter, _, err := filesig.SignFileData(lhash.BLAKE2b_256.Digest(body), map[string]string{"id": id, "version": version}, env, ts)
+	if err != nil {
+		return nil, nil, err
+	}
+	sigFile, err = filesig.MakeSigFileSection(letter)
+	if err != nil {
+		return nil, nil, err
+	}
+	signetJSON, err = json.Marshal(rcpt)
+	return sigFile, signetJSON, err
+}
 
 // scn is one scenario; its text form is the `run` line of a case.
 type scn struct {
@@ -161,6 +202,8 @@ func build(s scn, base string) (*built, error) {
 	put(1, pattern(s.Seed, 1, s.NewLen))
 	kind := "file"
 	oldObs, newObs := "-", "f,"+contentName(1, s.NewLen)
+	var also, extraTmp []string
+	newIsSig := false
 	writeOld := func(dest string) error {
 		switch s.Old {
 		case "absent":
@@ -267,12 +310,48 @@ func build(s scn, base string) (*built, error) {
 		sp.Params["identifier"] = id
 		sp.Params["version"] = "1.0.0"
 		sp.Params["fail"] = s.Fail
-		sp.Dest = root + "/dst/" + updater.GetVersionedPath(id, "1.0.0")
+		mainPath := root + "/dst/" + updater.GetVersionedPath(id, "1.0.0")
+		sp.Dest = mainPath
 		tmpdirs = append(tmpdirs, root+"/dst/tmp")
-		if s.Old != "absent" {
+		if s.Old != "absent" || s.Var == "missing-sig" {
 			_ = os.MkdirAll(filepath.Dir(sp.Dest), 0o755)
 		}
-		err = writeOld(sp.Dest)
+		if s.Var == "signed-main" || s.Var == "signed-sig" || s.Var == "missing-sig" {
+			sig, signet, e := signResource(table[1], id, "1.0.0")
+			if e != nil {
+				return nil, fmt.Errorf("sign: %w", e)
+			}
+			put(2, sig)
+			if e := os.WriteFile(filepath.Join(meta, "signet.json"), signet, 0o644); e != nil {
+				return nil, e
+			}
+			sp.Params["signed"] = "1"
+			sigPath := mainPath + filesig.Extension
+			extraTmp = append(extraTmp, "."+filepath.Base(sigPath))
+			switch s.Var {
+			case "signed-main":
+				also = append(also, sigPath)
+				err = writeOld(sp.Dest)
+			case "signed-sig":
+				// the destination under observation is the signature file; the resource itself is the other
+				// file this download publishes
+				also = append(also, mainPath)
+				sp.Dest = sigPath
+				oldObs, newObs = "-", "f,"+contentName(2, len(sig))
+				newIsSig = true
+			case "missing-sig":
+				// the resource is already there (complete, new content), only its signature is missing
+				if e := os.WriteFile(mainPath, table[1], 0o755); e != nil {
+					return nil, e
+				}
+				sp.Params["have"] = "1"
+				sp.Dest = sigPath
+				oldObs, newObs = "-", "f,"+contentName(2, len(sig))
+				newIsSig = true
+			}
+		} else {
+			err = writeOld(sp.Dest)
+		}
 	case "file-unpack":
 		id := "a/data.bin.gz"
 		sp.Params["storage"] = root + "/dst"
@@ -397,13 +476,21 @@ func build(s scn, base string) (*built, error) {
 	if strings.HasPrefix(oldObs, "f,") && (s.Old == "file" || s.Old == "file400") && s.Writer != "unpack-zip" {
 		oldObs = "f," + nameIt.content(table[0])
 	}
-	if strings.HasPrefix(newObs, "f,") {
+	if strings.HasPrefix(newObs, "f,") && !newIsSig {
 		newObs = "f," + nameIt.content(table[1])
 	}
 	if s.Old == "dir" {
 		kind = "dir"
 	}
 	sp.TmpNames = []string{"." + filepath.Base(sp.Dest)}
+	for _, x := range extraTmp {
+		if x != sp.TmpNames[0] {
+			sp.TmpNames = append(sp.TmpNames, x)
+		}
+	}
+	for _, a := range also {
+		sp.TmpNames = append(sp.TmpNames, "."+filepath.Base(a))
+	}
 	sp.OldObs, sp.NewObs = oldObs, newObs
 	sp.Readers = 2
 	if s.K > 0 {
@@ -416,8 +503,12 @@ func build(s scn, base string) (*built, error) {
 	for _, d := range tmpdirs {
 		td = append(td, cx.path(d))
 	}
-	b.destLine = fmt.Sprintf("dest %s kind=%s old=%s new=%s tmpdirs=%s tmpname=%s", cx.path(sp.Dest), kind, oldObs, newObs,
-		strings.Join(td, ","), strings.Join(sp.TmpNames, ","))
+	var al []string
+	for _, a := range also {
+		al = append(al, cx.path(a))
+	}
+	b.destLine = fmt.Sprintf("dest %s kind=%s old=%s new=%s tmpdirs=%s tmpname=%s also=%s", cx.path(sp.Dest), kind, oldObs, newObs,
+		strings.Join(td, ","), strings.Join(sp.TmpNames, ","), strings.Join(al, ","))
 	b.specPath = filepath.Join(meta, "spec.json")
 	js, _ := json.Marshal(sp)
 	if err := os.WriteFile(b.specPath, js, 0o644); err != nil {
